@@ -26,6 +26,7 @@ use lance_verif_harness::trace::{Args, TraceWriter};
 use serde_json::{json, Value};
 
 struct Ctx {
+    session: Option<Arc<lance::session::Session>>,
     storage_version: Option<String>,
     uri: String,
     cols: Vec<String>,
@@ -40,6 +41,7 @@ fn wparams(ctx: &Ctx, mode: WriteMode, step: &Value) -> WriteParams {
         enable_stable_row_ids: ctx.stable,
         max_rows_per_file: step.get("max_rows_per_file").and_then(|v| v.as_u64()).unwrap_or(1 << 20) as usize,
         max_rows_per_group: step.get("max_rows_per_group").and_then(|v| v.as_u64()).unwrap_or(1024) as usize,
+        session: ctx.session.clone(),
         data_storage_version: ctx
             .storage_version
             .as_ref()
@@ -83,8 +85,35 @@ fn lit(v: &Value) -> String {
     }
 }
 
+/// Open the table; through the scenario's shared session when there is one (C38).
+async fn open_ds(ctx: &Ctx) -> lance::Result<Dataset> {
+    match &ctx.session {
+        Some(s) => {
+            lance::dataset::builder::DatasetBuilder::from_uri(&ctx.uri)
+                .with_session(s.clone())
+                .load()
+                .await
+        }
+        None => Dataset::open(&ctx.uri).await,
+    }
+}
+
+fn copy_dir(src: &std::path::Path, dst: &std::path::Path) -> std::io::Result<()> {
+    std::fs::create_dir_all(dst)?;
+    for e in std::fs::read_dir(src)? {
+        let e = e?;
+        let to = dst.join(e.file_name());
+        if e.file_type()?.is_dir() {
+            copy_dir(&e.path(), &to)?;
+        } else {
+            std::fs::copy(e.path(), &to)?;
+        }
+    }
+    Ok(())
+}
+
 async fn latest_projection(ctx: &Ctx) -> Value {
-    match Dataset::open(&ctx.uri).await {
+    match open_ds(ctx).await {
         Ok(ds) => match project(&ds).await {
             Ok(p) => p,
             Err(e) => json!({"error": classify(&e), "text": err_text(&e)}),
@@ -416,7 +445,7 @@ async fn exec_step(ctx: &mut Ctx, step: &Value) -> (String, String, Value) {
             let variants = step["variants"].as_array().cloned().unwrap_or_else(|| vec![json!({"name": "base"})]);
             for var in variants {
                 let r: lance::Result<(Vec<i64>, Vec<i64>, i64)> = async {
-                    let d = Dataset::open(&ctx.uri).await?;
+                    let d = open_ds(ctx).await?;
                     let mut sc = d.scan();
                     let mut cols = vec!["id".to_string()];
                     if let Some(oc) = step.get("order").and_then(|o| o.get("col")).and_then(|c| c.as_str()) {
@@ -511,7 +540,7 @@ async fn exec_step(ctx: &mut Ctx, step: &Value) -> (String, String, Value) {
         "take" => {
             // take by offsets in the scan order of the latest version / by row ids
             let r: lance::Result<Value> = async {
-                let d = Dataset::open(&ctx.uri).await?;
+                let d = open_ds(ctx).await?;
                 let proj = d.schema().project(&["id"])?;
                 // by = "addr": keys are [fragment, offset] pairs composed here into 64-bit addresses
                 let keys: Vec<u64> = step["keys"]
@@ -543,7 +572,7 @@ async fn exec_step(ctx: &mut Ctx, step: &Value) -> (String, String, Value) {
             // random access derived from the current table: every position / row id / address once,
             // all of them in reverse order, a duplicate, and one position past the end
             let r: lance::Result<Value> = async {
-                let d = Dataset::open(&ctx.uri).await?;
+                let d = open_ds(ctx).await?;
                 let p = project(&d).await?;
                 let stable = p["stable"].as_bool().unwrap_or(false);
                 let mut addrs: Vec<(u64, u64)> = vec![];
@@ -609,10 +638,73 @@ async fn exec_step(ctx: &mut Ctx, step: &Value) -> (String, String, Value) {
             }
             out
         }
+        "tag" => {
+            let r = async {
+                let d = open_ds(ctx).await?;
+                d.tags().create(step["name"].as_str().unwrap(), step["v"].as_u64().unwrap()).await
+            }
+            .await;
+            res_of(&r)
+        }
+        "drop_table" => {
+            // remove the table; the scenario re-creates one at the same location (same session)
+            ctx.handles.clear();
+            ctx.txns.clear();
+            match std::fs::remove_dir_all(&ctx.uri) {
+                Ok(_) => ("ok".into(), String::new()),
+                Err(e) => ("io".into(), e.to_string()),
+            }
+        }
+        "copy_reread" => {
+            // C42: copy every object under the root elsewhere, remove the original, read the copy
+            let r: lance::Result<Value> = async {
+                let d = Dataset::open(&ctx.uri).await?;
+                let latest = d.manifest().version;
+                let mut tags_before: Vec<(String, u64)> =
+                    d.tags().list().await?.into_iter().map(|(k, v)| (k, v.version)).collect();
+                tags_before.sort();
+                drop(d);
+                let src = std::path::PathBuf::from(&ctx.uri);
+                let dst = std::path::PathBuf::from(format!("{}_copy", ctx.uri));
+                let gone = std::path::PathBuf::from(format!("{}_gone", ctx.uri));
+                copy_dir(&src, &dst).map_err(|e| lance::Error::io(e.to_string(), snafu::location!()))?;
+                std::fs::rename(&src, &gone).map_err(|e| lance::Error::io(e.to_string(), snafu::location!()))?;
+                let out = async {
+                    let c = Dataset::open(dst.to_str().unwrap()).await?;
+                    let mut projs = vec![];
+                    for v in 1..=latest {
+                        match c.checkout_version(v).await {
+                            Ok(cv) => projs.push(json!([v, project(&cv).await?])),
+                            Err(e) => projs.push(json!([v, {"error": classify(&e)}])),
+                        }
+                    }
+                    let mut tags_after: Vec<(String, u64)> =
+                        c.tags().list().await?.into_iter().map(|(k, v)| (k, v.version)).collect();
+                    tags_after.sort();
+                    let mut tag_reads = vec![];
+                    for (name, _) in &tags_after {
+                        let t = c.checkout_version(name.as_str()).await?;
+                        tag_reads.push(json!([name, t.manifest().version]));
+                    }
+                    Ok::<Value, lance::Error>(json!({"projs": projs, "tags_before": tags_before, "tags_after": tags_after, "tag_reads": tag_reads}))
+                }
+                .await;
+                // put the original back so that later steps (and the final projection) still work
+                let _ = std::fs::rename(&gone, &src);
+                let _ = std::fs::remove_dir_all(&dst);
+                out
+            }
+            .await;
+            let out = res_of(&r);
+            if let Ok(v) = r {
+                extra = v;
+            }
+            out
+        }
         "reread" => {
             // time travel: project an old version through a fresh open
             let r = async {
-                let d = Dataset::open(&ctx.uri).await?;
+                let d = open_ds(ctx).await?;
                 let d = d.checkout_version(step["v"].as_u64().unwrap()).await?;
                 project(&d).await
             }
@@ -625,7 +717,7 @@ async fn exec_step(ctx: &mut Ctx, step: &Value) -> (String, String, Value) {
         }
         "validate" => {
             let r = async {
-                let d = Dataset::open(&ctx.uri).await?;
+                let d = open_ds(ctx).await?;
                 d.validate().await
             }
             .await;
@@ -657,6 +749,13 @@ fn main() {
         let dir = scratch.join(format!("s{}_{}", std::process::id(), li));
         let _ = std::fs::remove_dir_all(&dir);
         let mut ctx = Ctx {
+            session: scn.get("session").map(|c| {
+                Arc::new(lance::session::Session::new(
+                    c.get("index_bytes").and_then(|v| v.as_u64()).unwrap_or(6 << 30) as usize,
+                    c.get("meta_bytes").and_then(|v| v.as_u64()).unwrap_or(1 << 30) as usize,
+                    Default::default(),
+                ))
+            }),
             storage_version: scn.get("storage_version").and_then(|v| v.as_str()).map(|s| s.to_string()),
             uri: dir.to_str().unwrap().to_string(),
             cols: if scn.get("cols").is_some() { strs_of(&scn["cols"]) } else { vec!["id".into(), "val".into()] },
